@@ -347,7 +347,8 @@ def shards(tier, seed):
                     ["F0", "C", "P0"], ["C", "F0", "P0"], ["P0", "C", "F0"]]
         for shape in ("left", "right"):
             for top in "+-*/":
-                sh(f"{shape}-top-{NM[top]}", shape, Q3, [p for p in PAIRS if p[0] == top])
+                sh(f"{shape}-top-{NM[top]}-inner-plus-minus", shape, Q3, [p for p in PAIRS if p[0] == top and p[1] in "+-"])
+                sh(f"{shape}-top-{NM[top]}-inner-times-div", shape, Q3, [p for p in PAIRS if p[0] == top and p[1] in "*/"])
         sh("nary3-plus", "nary3", Q3 + [["F0", "S", "P0"], ["S", "F0", "F1"]], [["+"]])
         sh("nary3-times", "nary3", Q3 + [["F0", "S", "P0"], ["S", "F0", "F1"]], [["*"]])
     else:
